@@ -285,7 +285,7 @@ class Serializable(eqx.Module):
         path = Path(path)
         if not path.parent.exists():
             path.parent.mkdir(parents=True, exist_ok=True)
-        if path.suffix != ".eqx" and not no_suffix:
+        if path.suffix == "" and not no_suffix:
             path = path.with_suffix(".eqx")
 
         eqx.tree_serialise_leaves(path, self)
